@@ -16,14 +16,18 @@ Entries == {"fractional_abundance", "from_elementdensity", "match_plasma_neutral
 Elements == {"helium", "carbon"}
 Reps == {"scalar", "ndarray", "function1d"}       \* how n_e, T_e and the donor density are handed over
 Donor == {"none", "shared"}                        \* without CX donor / with the caller's donor profile
+\* the caller's profiles: every point its own plasma state, or two points with identical (n_e, T_e, n_D) but different
+\* densities of the other species (an impurity scan at fixed plasma parameters)
+Profiles == {"distinct", "repeated_plasma"}
 
-VARIABLES inputs,    \* version of each caller-owned array (0 = as created); no action of the library may change it
+VARIABLES profile,   \* which set of profiles the caller owns in this session
+          inputs,    \* version of each caller-owned array (0 = as created); no action of the library may change it
           hist
-vars == <<inputs, hist>>
+vars == <<profile, inputs, hist>>
 
-Init == inputs = [ne |-> 0, te |-> 0, nd |-> 0, nel |-> 0] /\ hist = <<>>
+Init == profile \in Profiles /\ inputs = [ne |-> 0, te |-> 0, nd |-> 0, nel |-> 0] /\ hist = <<>>
 Call(e, el, rep, d) ==
-    /\ UNCHANGED inputs
+    /\ UNCHANGED <<inputs, profile>>
     /\ hist' = Append(hist, [entry |-> e, element |-> el, rep |-> rep, donor |-> d])
 Next == Len(hist) < MaxHist /\ \E e \in Entries, el \in Elements, rep \in Reps, d \in Donor : Call(e, el, rep, d)
 Spec == Init /\ [][Next]_vars
@@ -31,5 +35,5 @@ Spec == Init /\ [][Next]_vars
 InputsUntouched == inputs = [ne |-> 0, te |-> 0, nd |-> 0, nel |-> 0]
 \* the result of a call is determined by this key alone (the harness compares equal keys across and within histories)
 ResultKey(c) == <<c.entry, c.element, c.donor>>
-Emit == PrintT(ToJson([calls |-> hist']))
+Emit == PrintT(ToJson([calls |-> hist', profile |-> profile']))
 =============================================================================
